@@ -471,6 +471,11 @@ template <class TReader> class CMsgPackReadObjectScope;
 class CMsgPackScopeBase : public MsgPackArchiveTraits
 {
 public:
+	/// <summary>
+	/// The upper limit of the size estimate that is reported to loaders (used only for reserving memory).
+	/// </summary>
+	static constexpr size_t MaxEstimatedSize = 65536;
+
 	CMsgPackScopeBase(CMsgPackScopeBase* parentScope = nullptr) noexcept
 		: mParentScope(parentScope)
 	{ }
@@ -543,7 +548,8 @@ public:
 	/// </summary>
 	[[nodiscard]] size_t GetEstimatedSize() const noexcept
 	{
-		return mSize;
+		// The declared size comes from the (untrusted) input, it is limited to avoid allocating a huge amount of memory ahead of reading
+		return mSize < MaxEstimatedSize ? mSize : MaxEstimatedSize;
 	}
 
 	/// <summary>
@@ -609,7 +615,8 @@ public:
 	/// </summary>
 	[[nodiscard]] size_t GetEstimatedSize() const noexcept
 	{
-		return mSize;
+		// The declared size comes from the (untrusted) input, it is limited to avoid allocating a huge amount of memory ahead of reading
+		return mSize < MaxEstimatedSize ? mSize : MaxEstimatedSize;
 	}
 
 	/// <summary>
@@ -711,7 +718,8 @@ public:
 	/// </summary>
 	[[nodiscard]] size_t GetEstimatedSize() const noexcept
 	{
-		return mSize;
+		// The declared size comes from the (untrusted) input, it is limited to avoid allocating a huge amount of memory ahead of reading
+		return mSize < MaxEstimatedSize ? mSize : MaxEstimatedSize;
 	}
 
 	/// <summary>
